@@ -88,6 +88,8 @@ inductive Ev where
   | stClosed
   /-- ring contents, consumer first (correspondence only) -/
   | dump (bytes : List Byte)
+  /-- `receive_snoop (text, snooper)`: the whole text of a write is handed to the user `snooper` who snoops this one -/
+  | snoop (snooper : Nat) (data : List Byte)
   /-- out-of-bounds access / endless loop in the C code -/
   | fault (what : String)
   deriving Repr, DecidableEq
@@ -111,6 +113,8 @@ structure St where
   /-- `ip == all_users[0]`: the console user - write(2) to stdout instead of send(), no write notification, add_message
   flushes at its end, process_io flushes it on every pass -/
   console : Bool := false
+  /-- `ip->snoop_by`: the user (number) who snoops this one -/
+  snoopBy : Option Nat := none
   /-- remaining scripted send results -/
   script : List SendRes := []
   /-- ghost: all bytes accepted by send so far, newest first -/
@@ -237,6 +241,12 @@ def addLoop : List Byte → St → St × List Ev × Go
       | g => (g2.1, g1.2.1 ++ g2.2.1, g)
     | g => (g1.1, g1.2.1, g)
 
+/-- `if (ip->snoop_by) receive_snoop (data, ip->snoop_by->ob);` -/
+def snoopEvs (s : St) (data : List Byte) : List Ev :=
+  match s.snoopBy with
+  | none => []
+  | some k => [.snoop k data]
+
 /-- `add_message (who, data)` (`v = false`) / `add_vmessage (who, "%s", data)` (`v = true`) -/
 def addMessage (v : Bool) (data : List Byte) (s : St) : St × List Ev :=
   if s.gone then (s, [.wbeg v data, .wend])
@@ -245,15 +255,19 @@ def addMessage (v : Bool) (data : List Byte) (s : St) : St × List Ev :=
     if v then
       -- `if ((ip->message_length != 0) && !flush_message (ip)) debug_message (...)`
       let f := if r.1.len ≠ 0 then flushMsg r.1 else (r.1, [], true)
-      (f.1, .wbeg v data :: (r.2.1 ++ f.2.1 ++ [.wend]))
+      -- add_vmessage snoops after its trailing flush, also after a `break` on a broken connection
+      (f.1, .wbeg v data :: (r.2.1 ++ f.2.1 ++ snoopEvs s data ++ [.wend]))
     else if s.console then
       -- `if (ip == all_users[0]) flush_message (ip);` (not reached after the `return` of a broken connection)
       let f := if r.2.2 = .ret then (r.1, [], true) else flushMsg r.1
-      (f.1, .wbeg v data :: (r.2.1 ++ f.2.1 ++ [.wend]))
+      let sn := if r.2.2 = .ret then [] else snoopEvs s data
+      (f.1, .wbeg v data :: (r.2.1 ++ sn ++ f.2.1 ++ [.wend]))
     else
       -- a broken connection `return`s before `async_runtime_modify (.., EVENT_READ | EVENT_WRITE, ..)`
       let s2 := if r.2.2 = .ret then r.1 else { r.1 with want := true }
-      (s2, .wbeg v data :: (r.2.1 ++ [.wend]))
+      -- the `return` of a broken connection also skips the snoop forwarding
+      let sn := if r.2.2 = .ret then [] else snoopEvs s data
+      (s2, .wbeg v data :: (r.2.1 ++ sn ++ [.wend]))
 
 inductive Op where
   | sendres (rs : List SendRes)
@@ -264,6 +278,8 @@ inductive Op where
   | close
   | peerfin
   | dump
+  /-- `new_set_snoop`: user `k` starts (`some k`) / nobody any longer (`none`) snoops this user -/
+  | snoopBy (k : Option Nat)
   deriving Repr
 
 def stEv (s : St) : Ev :=
@@ -293,6 +309,7 @@ def step (s : St) : Op → St × List Ev
     if s.closed then (s, [stEv s])
     else ({ s with dead := true, closed := true }, [.close, .stClosed])
   | .dump => (s, [.dump (if s.closed then [] else contents s)])
+  | .snoopBy k => ({ s with snoopBy := k }, [])
 
 def runFrom : St → List Op → St × List Ev
   | s, [] => (s, [])
